@@ -18,6 +18,9 @@ type Solver struct {
 	in      io.WriteCloser
 	out     *bufio.Reader
 	p       *printer
+	asserted [][]*Term // assertions per level (for one-shot fallback)
+	lastOne  bool      // the last Check was answered by the one-shot fallback
+	OneShots int
 	levels  [][]int32  // term ids named per level
 	dlevels [][]string // var names declared per level
 	Queries int
@@ -60,6 +63,7 @@ func (s *Solver) start() {
 	s.p = &printer{named: map[int32]string{}, decl: map[string]bool{}}
 	s.levels = [][]int32{nil}
 	s.dlevels = [][]string{nil}
+	s.asserted = [][]*Term{nil}
 	if strings.Contains(s.bin, "cvc5") {
 		s.send("(set-logic ALL)\n")
 	} else {
@@ -91,12 +95,14 @@ func (s *Solver) emit(t *Term) string {
 }
 
 func (s *Solver) Push() {
+	s.asserted = append(s.asserted, nil)
 	s.send("(push 1)\n")
 	s.levels = append(s.levels, nil)
 	s.dlevels = append(s.dlevels, nil)
 }
 
 func (s *Solver) Pop() {
+	s.asserted = s.asserted[:len(s.asserted)-1]
 	s.send("(pop 1)\n")
 	top := len(s.levels) - 1
 	if !s.global {
@@ -130,6 +136,7 @@ func (s *Solver) Reset() {
 	// level 0 may hold definitions from an earlier job: drop them with a reset
 	if len(s.levels[0]) > 0 || len(s.dlevels[0]) > 0 {
 		s.send("(reset)\n")
+		s.asserted = [][]*Term{nil}
 		s.p = &printer{named: map[int32]string{}, decl: map[string]bool{}}
 		s.levels = [][]int32{nil}
 		s.dlevels = [][]string{nil}
@@ -147,6 +154,7 @@ func (s *Solver) Assert(t *Term) {
 	}
 	r := s.emit(t)
 	s.send("(assert " + r + ")\n")
+	s.asserted[len(s.asserted)-1] = append(s.asserted[len(s.asserted)-1], t)
 }
 
 func (s *Solver) readLine() string {
@@ -180,10 +188,16 @@ func (s *Solver) Check() string {
 	default:
 		s.send(fmt.Sprintf("(set-option :timeout %d)\n(check-sat)\n", s.fastMs))
 		r = s.readLine()
+		s.lastOne = false
 		if r == "unknown" {
 			s.Fallbacks++
-			s.send(fmt.Sprintf("(set-option :timeout %d)\n(check-sat-using qfaufbv)\n", s.timeout))
+			s.send(fmt.Sprintf("(set-option :timeout %d)\n(check-sat-using qfaufbv)\n", s.timeout/4))
 			r = s.readLine()
+			if r == "unknown" {
+				// one-shot: a fresh solver on the cone of influence of the current assertions
+				r, _ = s.oneShot(nil)
+				s.lastOne = true
+			}
 		}
 	}
 	d := time.Since(t0)
@@ -274,8 +288,78 @@ func (s *Solver) readSexp() string {
 	}
 }
 
+// oneShot solves the current assertion stack in a fresh process (full-strength, non-incremental
+// pipeline), optionally evaluating ts in the model.
+func (s *Solver) oneShot(ts []*Term) (string, []uint64) {
+	r, v := s.oneShotX(ts, false)
+	if r == "unknown" {
+		// lambda arrays can make z3 give up: retry with range stores expanded into plain stores
+		r, v = s.oneShotX(ts, true)
+	}
+	return r, v
+}
+
+func (s *Solver) oneShotX(ts []*Term, expand bool) (string, []uint64) {
+	s.OneShots++
+	var sb strings.Builder
+	p := &printer{named: map[int32]string{}, decl: map[string]bool{}, sb: &sb, expandRange: expand}
+	sb.WriteString("(set-option :produce-models true)\n")
+	var refs []string
+	for _, lvl := range s.asserted {
+		for _, t := range lvl {
+			refs = append(refs, p.ref(t))
+		}
+	}
+	for _, r := range refs {
+		sb.WriteString("(assert " + r + ")\n")
+	}
+	var vrefs []string
+	for _, t := range ts {
+		vrefs = append(vrefs, p.ref(t))
+	}
+	sb.WriteString("(check-sat-using qfaufbv)\n")
+	if len(vrefs) > 0 {
+		sb.WriteString("(get-value (" + strings.Join(vrefs, " ") + "))\n")
+	}
+	cmd := exec.Command(s.bin, "-in", fmt.Sprintf("-T:%d", s.timeout/1000+1))
+	cmd.Stdin = strings.NewReader(sb.String())
+	t0 := time.Now()
+	out, err := cmd.Output()
+	txt := string(out)
+	if os.Getenv("GOSYM_DEBUG") != "" {
+		head := txt
+		if len(head) > 80 {
+			head = head[:80]
+		}
+		fmt.Fprintf(os.Stderr, "  oneshot: %d bytes in, %.1fs, err=%v, out=%q\n", sb.Len(), time.Since(t0).Seconds(), err, head)
+	}
+	line := txt
+	if i := strings.Index(txt, "\n"); i >= 0 {
+		line = txt[:i]
+		txt = txt[i+1:]
+	} else {
+		txt = ""
+	}
+	line = strings.TrimSpace(line)
+	if line != "sat" && line != "unsat" {
+		return "unknown", nil
+	}
+	var vals []uint64
+	if line == "sat" && len(vrefs) > 0 {
+		vals = parseGetValue(txt, len(vrefs))
+	}
+	return line, vals
+}
+
 // Values evaluates scalar terms in the current model (call right after a sat Check, same level).
 func (s *Solver) Values(ts []*Term) []uint64 {
+	if s.lastOne {
+		_, vals := s.oneShot(ts)
+		if vals == nil {
+			vals = make([]uint64, len(ts))
+		}
+		return vals
+	}
 	res := make([]uint64, len(ts))
 	const chunk = 512
 	for base := 0; base < len(ts); base += chunk {
